@@ -369,7 +369,7 @@ let handle (line : string) : string =
         | Err -> Buffer.add_string b "R err"
         | Panic -> Buffer.add_string b "PANIC"
         | OutOfFuel -> Buffer.add_string b "OUTOFFUEL")
-   | "SD" | "SDN" | "SDP" ->     (* SDP: other streams of the process are stalled meanwhile - a decode depends on its own stream only *)
+   | "SD" | "SDN" | "SDP" | "SDX" ->     (* SDP: other streams of the process are stalled meanwhile - a decode depends on its own stream only *)
        let ds = get_dict (next t) in
        let k = next_int t in
        let rs = parse_rscript t in
